@@ -599,8 +599,10 @@ def select__distinct_values(self: XPathFunction, context: ta.ContextType = None)
     else:
         collation = self.get_argument(self.context or context, 1, required=True, cls=str)
 
+    # Don't yield with the locale switched and the collation lock held
     with CollationManager(collation, self):
-        yield from distinct_values()
+        results = list(distinct_values())
+    yield from results
 
 
 @method(function('insert-before', nargs=3,
@@ -639,10 +641,11 @@ def select__index_of(self: XPathFunction, context: ta.ContextType = None) -> Ite
     else:
         collation = self.get_argument(context, 2, required=True, cls=str)
 
+    # Don't yield with the locale switched and the collation lock held
     with CollationManager(collation, self) as manager:
-        for pos, result in enumerate(self[0].atomization(context), start=1):
-            if manager.eq(result, value):
-                yield pos
+        positions = [pos for pos, result in enumerate(self[0].atomization(context), start=1)
+                     if manager.eq(result, value)]
+    yield from positions
 
 
 @method(function('remove', nargs=2, sequence_types=('item()*', 'xs:integer', 'item()*')))
